@@ -1,0 +1,7 @@
+//go:build !verif
+// +build !verif
+
+package massdb_v1
+
+// verifMem is the identity unless the package is built with the tag "verif".
+func verifMem(requiredMem uint64) uint64 { return requiredMem }
